@@ -41,15 +41,26 @@ def gen_sloop(rng):
     start = rng.randint(1, K)
     lines = ["start %d" % start]
     low = start
+    best = start          # the solver's best score as Model/SolverLoop.v srun computes it
     for _ in range(rng.randint(1, 25)):
         resets = []
+        toks = []
         if rng.random() < 0.35:
             for _ in range(rng.randint(1, 2)):
-                resets.append(rng.choice([rng.randint(0, K), rng.randint(low, K), max(0, low - rng.randint(0, 40))]))
+                if rng.random() < 0.35:
+                    # what the restart operator does: Reset(Solver().BestSolution()); the score is for the model side
+                    toks.append("b%d" % best)
+                    continue
+                x = rng.choice([rng.randint(0, K), rng.randint(low, K), max(0, low - rng.randint(0, 40))])
+                resets.append(x)
+                toks.append(str(x))
+                best = min(best, x)
         r = rng.random()
         w = rng.randint(0, max(0, low - 1)) if r < 0.4 else (low if r < 0.5 else rng.randint(0, K))
         ci = 1 if rng.random() < 0.8 else 0
-        lines.append("exec %d %d %s" % (ci, w, " ".join(map(str, resets))))
+        lines.append("exec %d %d %s" % (ci, w, " ".join(toks)))
+        if ci and w < best:
+            best = w
         low = min([low, w] + resets)
     return lines
 
